@@ -4,8 +4,11 @@
 
   commonroad/scenario/lanelet.py   LaneletNetwork.cleanup_lanelet_references, cleanup_traffic_sign_references,
                                    cleanup_traffic_light_references, remove_lanelet, remove_traffic_sign, remove_traffic_light,
-                                   remove_intersection, create_from_lanelet_list, create_from_lanelet_network (in pieces)
-  commonroad/scenario/scenario.py  Scenario.remove_hanging_lanelet_members (the two id sets), remove_lanelet, remove_traffic_sign,
+                                   remove_intersection, create_from_lanelet_list, create_from_lanelet_network (three pieces
+                                   that exhaust the body — prefix + first loop, body of the intersection loop, tail — and
+                                   the whole function as their composition)
+  commonroad/scenario/scenario.py  Scenario.remove_hanging_lanelet_members (whole; also the two id sets alone), remove_lanelet,
+                                   remove_traffic_sign,
                                    remove_traffic_light, remove_intersection
 
 with `ast` and writes Lean definitions over the records of lean/CRModel/Refs.lean to `<gen_dir>/SrcC10.lean` (module `Gen.SrcC10`).
@@ -101,7 +104,8 @@ def names_in(n):
 
 class Spec:
     def __init__(self, name, file, cls, func, params, ret, fin=None, methods=None, locals_=None, keep=None, loop=None,
-                 upto_loop=None, emit=None, monadic=False, doc="", from_stmt=None, list_branch=None, funcs=None):
+                 upto_loop=None, emit=None, monadic=False, doc="", from_stmt=None, list_branch=None, funcs=None,
+                 after_loop=None, res=False, whole=None):
         self.name, self.file, self.cls, self.func = name, file, cls, func
         self.params = params            # [(python name or None, lean name, type)]
         self.ret = ret                  # lean return type text
@@ -116,6 +120,9 @@ class Spec:
         self.doc = doc
         self.list_branch = list_branch  # True: take the `if isinstance(x, list)` branch, False: the rest (x is one object)
         self.funcs = funcs or {}        # plain function calls -> lean
+        self.after_loop = after_loop    # translate the statements after this for loop (the tail of the function)
+        self.res = res                  # `Res` style: `return e` is `.ok e`, an adding loop that may raise is PyR.forR
+        self.whole = whole              # (prefix piece, loop-body piece, tail piece): compose the whole cut-out from its pieces
 
 
 class T10(Tr):
@@ -370,7 +377,7 @@ class T10(Tr):
         return isinstance(c, ast.Call) and self.dotted(c.func) in SKIP_CALLS
 
     def droppable(self, s):
-        if isinstance(s, ast.Expr) and isinstance(s.value, ast.Constant):
+        if isinstance(s, ast.Pass) or (isinstance(s, ast.Expr) and isinstance(s.value, ast.Constant)):
             return True
         if isinstance(s, ast.Expr) and self.is_skip_call(s.value):
             return True
@@ -525,7 +532,77 @@ class T10(Tr):
                 raise Unsupported("bare return")
             return pad + self.final()
         t, ty = self.ex(s.value)
+        if self.s.res:
+            if ty != "Net":
+                raise Unsupported(f"return of a {ty}")
+            return f"{pad}.ok {t}"
         return pad + t
+
+    # add_* calls of the cut-out tail: method -> (call-table entry, type of the looked-up object)
+    ADDS = {"add_traffic_sign": ("CR.PyR.addSignR", "OptElem", 2), "add_traffic_light": ("CR.PyR.addLightR", "OptElem", 2),
+            "add_lanelet": ("CR.PyR.addLaneletR", "OptLanelet", 1)}
+
+    def add_loop(self, s, rest, fin, ind):
+        """`for i in ids: net.add_X(copy.deepcopy(src.find_X_by_id(i)), set())`  (add_lanelet: `rtree=False`) — may raise"""
+        pad = "  " * ind
+        if len(s.body) != 1 or not (isinstance(s.body[0], ast.Expr) and isinstance(s.body[0].value, ast.Call)):
+            return None
+        c = s.body[0].value
+        if not (isinstance(c.func, ast.Attribute) and c.func.attr in self.ADDS and isinstance(c.func.value, ast.Name)
+                and self.env.get(c.func.value.id) == "Net"):
+            return None
+        fn, want, nargs = self.ADDS[c.func.attr]
+        if len(c.args) != nargs:
+            raise Unsupported(f"{c.func.attr}: {len(c.args)} arguments")
+        if nargs == 2 and not (self.empty(c.args[1])):
+            raise Unsupported(f"{c.func.attr}: lanelet ids given")
+        kws = {k.arg: k.value for k in c.keywords}
+        if c.func.attr == "add_lanelet":
+            if set(kws) - {"rtree"} or ("rtree" in kws and not (isinstance(kws["rtree"], ast.Constant) and kws["rtree"].value is False)):
+                raise Unsupported("add_lanelet keywords")
+        elif kws:
+            raise Unsupported(f"{c.func.attr} keywords")
+        x = s.target.id
+        it, ity = self.ex(s.iter)
+        if ity != "IdSet":
+            raise Unsupported(f"adding loop over a {ity}")
+        saved = dict(self.env)
+        self.env[x] = "Id"
+        t, ty = self.ex(c.args[0])
+        self.env = saved
+        if ty != want:
+            raise Unsupported(f"{c.func.attr} of a {ty}")
+        r = self.v(c.func.value.id)
+        k = self.block(rest, fin, ind + 1)
+        return (f"{pad}CR.PyR.bindR (CR.PyR.forR (fun {r} ({self.v(x)} : CR.Refs.Id) => {fn} {r} {t}) {r} {it}) (fun {r} =>\n{k})")
+
+    def whole(self, stmts):
+        """the cut-out as the composition of its three translated pieces; checks that they are consecutive and exhaustive"""
+        sp = self.s
+        sel, inter, tail = sp.whole
+        i = self.find_loop(stmts, "lanelet_network.lanelets")
+        j = self.find_loop(stmts, "lanelet_network.intersections")
+        if j != i + 1:
+            raise Unsupported("statements between the lanelet loop and the intersection loop")
+        for st in stmts[:i]:
+            if isinstance(st, (ast.For, ast.While, ast.Return, ast.Raise, ast.Try, ast.With)):
+                raise Unsupported("control flow before the first loop")
+        # the network the pieces fill is `cls()`
+        new = [st for st in stmts[:i] if isinstance(st, ast.Assign) and isinstance(st.value, ast.Call)
+               and self.dotted(st.value.func) == "cls" and not st.value.args and not st.value.keywords]
+        if len(new) != 1 or not (len(new[0].targets) == 1 and isinstance(new[0].targets[0], ast.Name)
+                                 and new[0].targets[0].id == "new_lanelet_network"):
+            raise Unsupported("new_lanelet_network = cls() not found")
+        loop = stmts[j]
+        if not (isinstance(loop.target, ast.Name) and loop.target.id == "old_intersection" and not loop.orelse):
+            raise Unsupported("intersection loop variable")
+        binders = " ".join(f"({ln} : {lean_ty(ty)})" for _, ln, ty in sp.params)
+        doc = f"/-- {sp.file}: {sp.cls}.{sp.func} — {sp.doc} -/\n"
+        return (f"{doc}def {sp.name} {binders} : {sp.ret} :=\n"
+                f"  let sel := {sel} lanelet_network keep\n"
+                f"  let new_lanelet_network := lanelet_network.inters.foldl (fun new_lanelet_network (old_intersection : CR.Refs.Intersection) =>\n"
+                f"      CR.PyR.addInterO new_lanelet_network ({inter} sel.1 old_intersection)) CR.PyR.emptyNet\n"
+                f"  {tail} lanelet_network new_lanelet_network sel.1 sel.2.1 sel.2.2 cleanup_ids\n")
 
     def final(self):
         return f"({self.s.fin}, none)" if self.s.monadic else self.s.fin
@@ -681,6 +758,10 @@ class T10(Tr):
 
     def for_(self, s, rest, fin, ind):
         pad = "  " * ind
+        if self.s.res:
+            r = self.add_loop(s, rest, fin, ind)
+            if r is not None:
+                return r
         x = s.target.id
         it, ity = self.ex(s.iter)
         if ity.startswith("OptList:"):
@@ -745,9 +826,14 @@ class T10(Tr):
                 self.env[p] = ty
         if sp.list_branch is not None:
             stmts = self.pick_branch(stmts, sp.list_branch)
+        if sp.whole is not None:
+            return self.whole(stmts)
         if sp.upto_loop is not None:
             i = self.find_loop(stmts, sp.upto_loop)
             stmts = stmts[:i + 1]
+        if sp.after_loop is not None:
+            i = self.find_loop(stmts, sp.after_loop)
+            stmts = stmts[i + 1:]
         if sp.loop is not None:
             for src in sp.loop:
                 pre = stmts
@@ -830,6 +916,25 @@ def specs():
              "Option CR.Refs.Intersection", loop=["lanelet_network.intersections"], emit="new_lanelet_network.add_intersection",
              locals_={"new_incomings": "List:Inc", "new_crossings": "IdSet"},
              doc="body of the loop over the old intersections: `none` = continue, `some i` = add_intersection(i)"),
+        Spec("LaneletNetwork_cut_assemble", L, "LaneletNetwork", "create_from_lanelet_network",
+             [("lanelet_network", "lanelet_network", "Net"), ("new_lanelet_network", "new_lanelet_network", "Net"),
+              ("lanelet_ids", "lanelet_ids", "IdSet"), ("traffic_sign_ids", "traffic_sign_ids", "IdSet"),
+              ("traffic_light_ids", "traffic_light_ids", "IdSet"), ("cleanup_ids", "cleanup_ids", "Bool")],
+             "CR.Res CR.Refs.Net", after_loop="lanelet_network.intersections", res=True,
+             methods={**cleanups,
+                      "find_traffic_sign_by_id": ("CR.PyR.findSign", "fun", "OptElem"),
+                      "find_traffic_light_by_id": ("CR.PyR.findLight", "fun", "OptElem"),
+                      "find_lanelet_by_id": ("CR.PyR.findLanelet", "fun", "OptLanelet")},
+             doc="everything AFTER the loop over the old intersections: add_traffic_sign / add_traffic_light / add_lanelet of the "
+                 "selected ids (call-table entries PyR.add*R: `None` = AssertionError), the `if cleanup_ids` call of "
+                 "cleanup_lanelet_references, the return"),
+        Spec("LaneletNetwork_create_from_lanelet_network", L, "LaneletNetwork", "create_from_lanelet_network",
+             [("lanelet_network", "lanelet_network", "Net"), (None, "keep", "Keep"), ("cleanup_ids", "cleanup_ids", "Bool")],
+             "CR.Res CR.Refs.Net", whole=("LaneletNetwork_cut_select", "LaneletNetwork_cut_intersection",
+                                          "LaneletNetwork_cut_assemble"),
+             doc="the whole function = prefix up to the first loop (cut_select), the loop over the old intersections (its body "
+                 "is cut_intersection, `add_intersection` the call-table entry PyR.addInter), the tail (cut_assemble); the "
+                 "translator checks that these three pieces are consecutive and exhaust the body"),
     ]
     SCN = [("self", "self", "Scn")]
     scn_ret = "CR.Refs.Scn × Option CR.Err"
@@ -865,13 +970,21 @@ def specs():
                       "find_traffic_light_by_id": ("CR.PyR.idOfFound", "fun", "Id")},
              doc="everything before the two removal calls: the signs / lights handed to remove_traffic_sign / remove_traffic_light, "
                  "as ids (`find_*_by_id(t.id)` of an element `t` of the network is an element with that id)"),
+        Spec("Scenario_remove_hanging_lanelet_members", S, "Scenario", "remove_hanging_lanelet_members",
+             SCN + [("remove_lanelet", "remove_lanelet", "List:RmArg")], scn_ret, fin="self", monadic=True,
+             locals_={"remove_traffic_signs": "List:Elem", "remove_traffic_lights": "List:Elem"},
+             methods={"find_traffic_sign_by_id": ("CR.PyR.foundSign", "fun", "Elem"),
+                      "find_traffic_light_by_id": ("CR.PyR.foundLight", "fun", "Elem"),
+                      "self.remove_traffic_sign": ("Scenario_remove_traffic_sign_list", "mutM"),
+                      "self.remove_traffic_light": ("Scenario_remove_traffic_light_list", "mutM")},
+             doc="the WHOLE function, including the two final removal calls (list forms of remove_traffic_sign / "
+                 "remove_traffic_light); `find_*_by_id(t.id)` of an element `t` of the network is the call-table entry PyR.found*"),
         Spec("Scenario_remove_lanelet_list", S, "Scenario", "remove_lanelet",
-             SCN + [("lanelet", "lanelet", "List:RmArg"), ("referenced_elements", "referenced_elements", "Bool"),
-                    (None, "hang", "CR.Refs.Scn → List CR.Refs.RmArg → CR.Refs.Scn × Option CR.Err")],
+             SCN + [("lanelet", "lanelet", "List:RmArg"), ("referenced_elements", "referenced_elements", "Bool")],
              scn_ret, fin="self", monadic=True, list_branch=True,
-             methods={**finds, **netm, "self.remove_hanging_lanelet_members": ("hang", "mutM")},
-             doc="argument is a list of lanelets (a single lanelet is wrapped into a list); `hang` stands for "
-                 "remove_hanging_lanelet_members"),
+             methods={**finds, **netm, "self.remove_hanging_lanelet_members": ("Scenario_remove_hanging_lanelet_members", "mutM")},
+             doc="argument is a list of lanelets (a single lanelet is wrapped into a list); remove_hanging_lanelet_members is "
+                 "the translated function above"),
     ]
     return out
 
